@@ -546,6 +546,15 @@ class ClockTask():
         self.scheduler = scheduler
         scheduler.add(clock.beats2secs(beats), self)
 
+    # As rt clocks' queues, the scheduler keeps one entry by task and clock.
+
+    def __eq__(self, other):
+        return type(other) is ClockTask\
+            and self.clock is other.clock and self.task is other.task
+
+    def __hash__(self):
+        return hash((id(self.clock), id(self.task)))
+
     def _wakeup(self, time):
         try:
             _libsc3.main._update_logical_time(time)
